@@ -133,7 +133,7 @@ def full_cfg(cfg):
     c.update(cfg)
     return c
 
-def apply_cfg(b, c):
+def apply_cfg(b, c, fresh=True):
     conf = b.conf
     net = conf.supybot.networks.test
     conf.supybot.nick.setValue(c['nick'])
@@ -150,7 +150,8 @@ def apply_cfg(b, c):
     net.channels.setValue(['#vt'] if c['joins'] else [])
     net.ssl.setValue(bool(c['ssl']))
     conf.supybot.protocols.ssl.verifyCertificates.setValue(bool(c['verifycerts']))
-    b.irclib.Irc.REQUEST_CAPABILITIES.discard('sasl')      # class level: nothing may ever add it there
+    if fresh:
+        b.irclib.Irc.REQUEST_CAPABILITIES.discard('sasl')  # class level: nothing may ever add it there
     if c['scram']:
         FakeScram.HASH_FACTORIES = dict((h, None) for h in c['scramhashes'])
         FakeScram.P = {'first': c['scramfirst'].encode('utf-8'),
@@ -160,9 +161,10 @@ def apply_cfg(b, c):
         b.irclib.scram = FakeScram
     else:
         b.irclib.scram = None
-    n = b.ircdb.networks.getNetwork('test')
-    n.stsPolicies.clear(); n.stsPolicies.update(c['policies'])
-    n.lastDisconnectTimes.clear(); n.lastDisconnectTimes.update(c['lastdisc'])
+    if fresh:
+        n = b.ircdb.networks.getNetwork('test')
+        n.stsPolicies.clear(); n.stsPolicies.update(c['policies'])
+        n.lastDisconnectTimes.clear(); n.lastDisconnectTimes.update(c['lastdisc'])
 
 def new_irc(cfg):
     b = boot()
@@ -266,6 +268,14 @@ class ImplRun(object):
         self.irc.reset()
         self.obs.append(observe(self.irc))
         return self.obs[-1]
+    def recfg(self, cfg):
+        """the operator changes the configuration while the bot runs (takes effect at the next reset)"""
+        self.ops.append(('cfg', dict(cfg)))
+        self.cfg_now = dict(cfg)
+        apply_cfg(self.b, full_cfg(cfg), fresh=False)
+        self.lines.append('cfg' + cfg_line(cfg)[3:])
+        self.obs.append(observe(self.irc))
+        return self.obs[-1]
     def last(self):
         for o in reversed(self.obs):
             if o is not None:
@@ -280,6 +290,8 @@ def run_impl(cfg, ops):
     for op in ops:
         if op[0] == 'msg':
             run.msg(op[1])
+        elif op[0] == 'cfg':
+            run.recfg(op[1])
         else:
             run.reset()
     run.close()
@@ -545,14 +557,21 @@ def required_oracle(cfg, ops, obs):
     bad = []
     aborted = False
     success = False
+    responded = False        # a complete answer of the bot went out since it last asked for a mechanism
     prev = None
     for op, o in zip([('new',)] + list(ops), obs):
         if o is None:
             continue
         if op[0] == 'reset':
-            aborted = False; success = False
-        if op[0] == 'msg' and prev is not None and _is_903(op[1]) and prev.fsm in FSM_SASL:
+            aborted = False; success = False; responded = False
+        if op[0] == 'msg' and prev is not None and _is_903(op[1]) and prev.fsm in FSM_SASL and responded:
             success = True
+        for m in o.msgs:
+            if m.command == 'AUTHENTICATE' and m.args:
+                if is_mech(m.args[0]):
+                    responded = False
+                elif m.args[0] != '*' and len(m.args[0]) < 400:
+                    responded = True
         prev = o
         if aborted:
             continue
@@ -876,18 +895,44 @@ def is_mech(x):
 # numerics that make Irc.feedMsg adopt args[0] as the bot's nick (the server has registered us under it)
 NICK_SETTERS = ('001', '002', '003', '004', '005', '250', '251', '252', '254', '255', '265', '266', '372', '375', '376', '333', '353', '332', '366')
 
-def safety_oracle(ops, obs):
+def usable_mechs(cfg):
+    """the mechanisms of the configuration the bot can offer (Irc.resetSasl), judged from the configuration"""
+    c = full_cfg(cfg)
+    out = []
+    for m in c['mechs']:
+        if m == 'ecdsa-nist256p-challenge':
+            ok = boot().has_crypto and c['sasluser'] and c['ecdsakey']
+        elif m == 'external':
+            ok = c['certfile']
+        elif m.startswith('scram-'):
+            ok = c['scram'] and c['sasluser'] and c['saslpass']
+        elif m == 'plain':
+            ok = c['sasluser'] and c['saslpass']
+        else:
+            ok = False
+        if ok:
+            out.append(m)
+    return out
+
+def safety_oracle(ops, obs, cfg=None):
     """returns list of (predicate, message) violated.  Epochs end at 'reset'; after a driver abort
-    (reconnect/die on the stub, which does not reset) the rest of the epoch is not judged."""
+    (reconnect/die on the stub, which does not reset) the rest of the epoch is not judged.  `cfg` = the
+    configuration the run started with (a 'cfg' op replaces it; it takes effect at the next reset)."""
     bad = []
     ends = 0; aborted = False; sasl_acked = False; welcomed = False
     prev = obs[0]
+    cfg_next = cfg; cfg_epoch = cfg; changed = False
     for op, o in zip(ops, obs[1:]):
         if o is None:
             continue
+        if op[0] == 'cfg':
+            cfg_next = op[1]; changed = True
+            prev = o
+            continue
         if op[0] == 'reset':
             ends = 0; aborted = False; sasl_acked = False; welcomed = False
-            if o.s.split('\t')[:13] != obs[0].s.split('\t')[:13]:
+            cfg_epoch = cfg_next
+            if not changed and o.s.split('\t')[:13] != obs[0].s.split('\t')[:13]:
                 bad.append(('reset_fresh', 'after reset the observable state differs from a new Irc: %r vs %r' % (o.s, obs[0].s)))
             prev = o
             continue
@@ -903,6 +948,8 @@ def safety_oracle(ops, obs):
                             bad.append(('req_subset', 'CAP REQ %r: %r was not advertised (ls=%r)' % (m.args, w, sorted(o.ls))))
                         if w not in o.wanted:
                             bad.append(('req_subset', 'CAP REQ %r: %r is not in REQUEST_CAPABILITIES' % (m.args, w)))
+                        if w == 'sasl' and cfg_epoch is not None and not usable_mechs(cfg_epoch):
+                            bad.append(('req_subset', 'CAP REQ %r asks for sasl although this network\'s configuration offers no usable mechanism (mechanisms=%r)' % (m.args, full_cfg(cfg_epoch)['mechs'])))
                     if 'echo-message' in words and 'labeled-response' not in words and 'labeled-response' not in prev.ack:
                         bad.append(('echo_needs_label', 'CAP REQ %r requests echo-message without labeled-response (ack=%r)' % (m.args, sorted(prev.ack))))
                 if m.command == 'CAP' and m.args and m.args[0] == 'END':
@@ -1191,8 +1238,19 @@ class ConfServer(object):
 def script_adversarial(r, cfg, n):
     run = ImplRun(cfg)
     for _ in range(n):
-        if r.random() < 0.03:
+        x = r.random()
+        if x < 0.03:
             run.reset()
+        elif x < 0.045:
+            # the operator edits the SASL settings while connected; the next reset picks them up
+            c2 = dict(run.ops[-1][1]) if run.ops and run.ops[-1][0] == 'cfg' else dict(cfg)
+            if r.random() < 0.6:
+                c2.update(mechs=[], sasluser='', saslpass='')
+            else:
+                c2.update(mechs=['plain'], sasluser='u', saslpass='p')
+            run.recfg(c2)
+            if r.random() < 0.8:
+                run.reset()
         else:
             run.msg(gen_adv_line(r, run.last()))
     run.close()
@@ -1237,6 +1295,8 @@ def tags_of(run):
             t.add('unparsable'); continue
         if op[0] == 'reset':
             t.add('reset'); continue
+        if op[0] == 'cfg':
+            t.add('recfg'); continue
         t.add('fsm:' + o.fsm)
         if o.exc != '-':
             t.add('exc:' + o.exc)
@@ -1267,6 +1327,8 @@ def finding_capend_outstanding(run, bad):
         if op[0] == 'reset':
             seen = False
             continue
+        if op[0] == 'cfg':
+            continue
         if _is_cap_sub(op[1], ('NEW', 'DEL')):
             seen = True
         if o is not None and any(m.command == 'CAP' and m.args[:1] == ('END',) for m in o.msgs):
@@ -1289,7 +1351,7 @@ def finding_status():
             hits = 0
             for ops in (w['ops'], w['second']):
                 run = run_impl(w['cfg'] if ops is w['ops'] else {}, [tuple(op) for op in ops])
-                bad = safety_oracle(run.ops, run.obs)
+                bad = safety_oracle(run.ops, run.obs, run.cfg)
                 if any(p == 'cap_end_outstanding' for p, _ in bad):
                     hits += 1
             out[f['id']] = (hits > 0, 'CAP END sent while a CAP REQ is unanswered after CAP NEW during SASL / CAP DEL + second CAP LS (%d of 2 witnesses reproduce)' % hits)
@@ -1301,7 +1363,7 @@ class XCase(Case):
 
 def make_case(run, kind, stuck=False):
     ops = [list(op) for op in run.ops]
-    bad = safety_oracle(run.ops, run.obs)
+    bad = safety_oracle(run.ops, run.obs, run.cfg)
     if stuck:
         last = run.last()
         bad.append(('progress', 'conformant server has answered everything, the bot is in state %s, sent nothing more and did not abort' % last.fsm))
@@ -1454,10 +1516,10 @@ def replay(ctx, path):
     run = run_impl(inp['cfg'], [tuple(op) for op in inp['ops']])
     print('cfg:', json.dumps(inp['cfg']))
     for op, o in zip([('new',)] + run.ops, run.obs):
-        print('<', ' '.join(op))
+        print('<', ' '.join(str(x) for x in op))
         if o is not None:
             print('    state=%s out=%s drv=%s exc=%s' % (o.fsm, [(m.command,) + tuple(m.args) for m in o.msgs], o.calls, o.exc))
-    bad = safety_oracle(run.ops, run.obs)
+    bad = safety_oracle(run.ops, run.obs, run.cfg)
     print('property predicates violated now:', bad or 'none')
     print('recorded:', c.get('oracle_msg'))
     return 0
